@@ -26,6 +26,7 @@ struct Tally {
     data_via_typing: u64,
     singles: u64,
     flipped: u64,
+    learned_then_ansi: u64,
 }
 
 fn flush(t: &Tally, out: &mut Out) {
@@ -34,6 +35,7 @@ fn flush(t: &Tally, out: &mut Out) {
     out.count("ansi.lists", t.ansi_lists);
     out.count("ansi.single_strings", t.singles);
     out.count("ansi.texts_retyped_after_switching_ansi_on_in_a_live_context", t.flipped);
+    out.count("ansi.texts_with_a_learned_emoji_or_english_choice_retyped_with_ansi_on", t.learned_then_ansi);
     out.count("ansi.texts_that_have_emoji_outside_ansi", t.emoji_capable_texts);
     out.count("ansi.texts_with_english_option_on", t.english_capable_texts);
     out.count("non_ansi.candidates_preedit_identity", t.nonansi_candidates);
@@ -293,6 +295,46 @@ impl Prop for C16 {
                     t.flipped += 1;
                     out.begin_case(|| json!({"method": "phonetic", "cfg": on.to_json(), "text": tx, "typed_before_with_ansi_off_in_the_same_context": true}));
                     judge_phonetic(&mut o, &flip, tx, out, &mut t);
+                }
+            }
+        }
+        // ---- choices learned with ANSI off (an emoji, the raw English text) must not come back once ANSI is on: neither in the
+        // same context after update_engine nor in a new context that loads the store
+        if env.shard == 0 {
+            let lroot = env.root("c16-learned");
+            fresh_root(&lroot);
+            let off = CfgSpec::new(Lay::Phonetic, O_PSUGG | O_ENG);
+            let on = off.with(O_ANSI);
+            if let Ok(mut s) = Sess::new(off, &lroot) {
+                let mut learned: Vec<&str> = vec![];
+                for tx in ["smile", "hasi", "cool", "heart", "ami", "sun", "(fire)", "moon", "tumi", "rose."] {
+                    let Ok(Some(sg)) = s.type_text_protocol(tx) else { continue };
+                    if sg.is_lonely() {
+                        let _ = s.finish();
+                        continue;
+                    }
+                    let list = sg.get_suggestions();
+                    // an emoji candidate if there is one, else the raw English text (always the last one here)
+                    let idx = list.iter().position(|c| o.contains_emoji(c)).unwrap_or(list.len() - 1);
+                    if idx == sg.previously_selected_index() || s.commit(idx).is_err() {
+                        let _ = s.finish();
+                        continue;
+                    }
+                    learned.push(tx);
+                }
+                let fresh = Sess::new(on, &lroot);
+                let dm = [0u8, 3, 1, 4, 2][(env.seed % 5) as usize];
+                if s.update_with(on, dm).is_ok() {
+                    if let Ok(fresh) = fresh {
+                        for tx in &learned {
+                            for (which, ctx) in [("the same context after update_engine", &s), ("a new context over the same store", &fresh)] {
+                                t.learned_then_ansi += 1;
+                                out.begin_case(|| json!({"method": "phonetic", "cfg": on.to_json(), "text": tx, "history": format!("an emoji / the raw English text was chosen for this text with ANSI off; typed again with ANSI on in {which}"),
+                                                         "store": std::fs::read_to_string(selection_file(&lroot)).unwrap_or_default()}));
+                                judge_phonetic(&mut o, ctx, tx, out, &mut t);
+                            }
+                        }
+                    }
                 }
             }
         }
